@@ -888,6 +888,14 @@ impl<'a> VisitMut for Rw<'a> {
                     let r = &mc.receiver;
                     self.site("T4-unwrap");
                     replacement = Some(parse_quote!(#r.vx_unwrap()));
+                } else if (m == "contains" || m == "first_index_of") && mc.args.len() == 1 && matches!(mc.args[0], Expr::Tuple(_)) {
+                    // T16: the SDK's `Vec::contains` / `first_index_of` take `impl Borrow<T>`; the model's take `&T`.  A tuple
+                    // passed by value is passed by reference instead (same comparison).
+                    let r = &mc.receiver;
+                    let a = &mc.args[0];
+                    let name = &mc.method;
+                    self.site("T16-borrow");
+                    replacement = Some(parse_quote!(#r.#name(&#a)));
                 } else if m == "to_be_bytes" && mc.args.is_empty() {
                     // T15: `x.to_be_bytes()` -> `x.vx_to_be_bytes()`: the result type of the std method is `[u8; <anonymous
                     // const>]`, which an `assume_specification` cannot name; the model trait `VxBeBytes` (fragment idv_ext)
